@@ -21,7 +21,9 @@ EXPLANATION = (
     "class or an ancestor initialises -- the frozen table plus every attribute whose initial value is "
     "derived from a feature list; removals requested outside _remove_feature dispatch to the most "
     "derived override); R-pool-args (a computed multiprocessing chunk size is clamped to >= 1); R-select-nonempty "
-    "(numpy.select never sees an empty condition list); R-forward-sentinels (inner discretizers get the "
+    "(numpy.select never sees an empty condition list); R-apply-reduce (DataFrame.apply(unique) keeps one array per column: "
+    "result_type='reduce', otherwise pandas IndexingError on single / homogeneous columns: D29); R-index-kept (the transformed "
+    "frame keeps the caller's index: every later stage of fit aligns on it); R-forward-sentinels (inner discretizers get the "
     "outer str_nan / str_default: otherwise isfinite meets a foreign sentinel string); R-aggregate-fill "
     "(aggregates reindexed on the modalities state their fill value: no NaN / float in place of a list); "
     "R-no-iter-mutation (no loop iterates a self list that its body "
@@ -35,7 +37,7 @@ EXPLANATION = (
     "ChainedDiscretizer, which C18 covers)."
 )
 NOT_DECIDED = "absence of every other internal error on all inputs; that the fitted partition covers every training value"
-FLOORS = {"R-stale-features": 3, "R-suffix": 6, "R-remove-complete": 12, "R-no-iter-mutation": 3, "R-boundaries-sorted-unique-inf": 4, "R-definite-assignment": 100, "R-nullable-dev": 6, "R-hooks-exhaustive": 2, "R-quantile-progress": 2, "R-append-absent": 9, "R-pool-args": 1, "R-select-nonempty": 2, "R-forward-sentinels": 8, "R-aggregate-fill": 2}
+FLOORS = {"R-stale-features": 3, "R-suffix": 6, "R-remove-complete": 12, "R-no-iter-mutation": 3, "R-boundaries-sorted-unique-inf": 4, "R-definite-assignment": 100, "R-nullable-dev": 6, "R-hooks-exhaustive": 2, "R-quantile-progress": 2, "R-append-absent": 9, "R-pool-args": 1, "R-select-nonempty": 2, "R-forward-sentinels": 8, "R-aggregate-fill": 2, "R-apply-reduce": 3, "R-index-kept": 1}
 
 PER_FEATURE = {
     "features", "qualitative_features", "quantitative_features", "values_orders", "input_dtypes", "labels_per_values",
@@ -438,7 +440,38 @@ def rule_stale_feature_snapshot(ctx):
                "" if not bad else f"`{bad[0].id}` was computed from the feature list before features were removed and is used afterwards: a dropped feature is processed again (its values_orders / input_dtypes entry comes back)")
 
 
+def rule_apply_reduce(ctx):
+    """`DataFrame.apply(unique)` yields one array per column -- a Series of arrays -- only when pandas
+    is told not to expand them (result_type="reduce"): without it the result is a DataFrame as soon as
+    every column happens to have the same number of distinct entries (always the case for a single
+    column), and indexing it with the per-feature boolean mask raises pandas' IndexingError."""
+    from ..core import External, const_value
+
+    R = "R-apply-reduce"
+    n = 0
+    for fi in ctx.repo.all_functions():
+        if "/selectors/" in fi.module.relpath:
+            continue
+        for c in walk_no_nested(fi.node):
+            if not (isinstance(c, ast.Call) and isinstance(c.func, ast.Attribute) and c.func.attr in ("apply", "agg", "aggregate") and c.args and isinstance(c.args[0], ast.Name)):
+                continue
+            sym = ctx.repo.resolve_name(fi.module, c.args[0].id)
+            if not (isinstance(sym, External) and sym.last == "unique"):
+                continue
+            n += 1
+            rt = kwarg(c, "result_type")
+            ok = rt is not None and const_value(rt) == "reduce"
+            ctx.ob(R, construct(fi, f"`{short(c, 70)}` keeps one array per column (result_type='reduce')"), ok, loc(fi, c),
+                   "" if ok else "without result_type='reduce' the result is a DataFrame whenever all columns have equally many distinct entries (a single column always): the per-feature mask then raises IndexingError instead of the conversion / AssertionError")
+    if n == 0:
+        raise AnalysisError("no DataFrame.apply(unique) found")
+
+
 def check(ctx):
+    rule_apply_reduce(ctx)
+    from . import c07 as _c07
+
+    _c07.rule_index_kept(ctx)  # a transformed frame that loses the caller's index breaks every later stage of fit (misaligned target)
     rule_stale_feature_snapshot(ctx)
     from . import c12
 
@@ -459,6 +492,8 @@ def check(ctx):
 
 
 MUTANTS = [
+    M("D29-reverted: ChainedDiscretizer scans the cell types without result_type='reduce'", [(F_QUAL, "        dtypes = (\n            x_copy[self.features].fillna(self.str_nan).map(type).apply(unique, result_type=\"reduce\")\n        )\n", "        dtypes = x_copy[self.features].fillna(self.str_nan).map(type).apply(unique)\n")], "R-apply-reduce", "ChainedDiscretizer._prepare_data", quick=True),
+    M("index=X.index dropped from the transformed frame", [(F_BASE, "{feature: values for feature, values in all_transformed}, index=X.index\n", "{feature: values for feature, values in all_transformed}\n")], "R-index-kept"),
     M("column types computed before the identifier-like features are removed", [(F_DISC, "        # checking for ids (unique value per row)\n        max_frequencies = x_copy[self.features].apply(", "        dtypes_before = x_copy[self.features].fillna(self.str_nan).map(type).apply(unique, result_type=\"reduce\")\n        # checking for ids (unique value per row)\n        max_frequencies = x_copy[self.features].apply("), (F_DISC, "        dtypes = (\n            x_copy[self.features].fillna(self.str_nan).map(type).apply(unique, result_type=\"reduce\")\n        )\n", "        dtypes = dtypes_before\n")], "R-stale-features", "QualitativeDiscretizer._prepare_data"),
     M("D4-reverted: duplicated boundaries", [(F_QUAN, "    return list(\n        unique(\n            np_find_quantiles(", "    return list(\n        sorted(\n            np_find_quantiles(")], "R-boundaries-sorted-unique-inf", "unique", quick=True),
     M("D15-reverted: default group appended unconditionally", [(F_QUAL, "                if self.str_default not in order:\n                    order.append(self.str_default)\n", "                order.append(self.str_default)\n")], "R-append-absent", "CategoricalDiscretizer.fit", quick=True),
